@@ -4,7 +4,7 @@
    with a row pitch; `block_image` for block formats.  The implementation is compared with
    blit(prefill, crop(rect, map chmap (native full decode))) for all 73 formats (harness tag 5). *)
 From Coq Require Import ZArith List Bool Lia.
-From DDSV Require Import base.Machine model.Layout model.DecodeScript model.Crop model.RectPath proofs.CropProofs proofs.RectPathProofs.
+From DDSV Require Import base.Machine model.Layout model.DecodeScript model.Crop model.RectPath model.PixelPath proofs.CropProofs proofs.RectPathProofs proofs.PixelPathProofs.
 Import ListNotations.
 Local Open Scope Z_scope.
 
@@ -102,6 +102,27 @@ Proof. exact spec_image_pixel. Qed.
    native pixel size up to 16 bytes (the debug_assert `buffer_size.width >= block_width`) *)
 Theorem C05_buffer_fits : forall bw bh bbpp, (bw <= 12 -> bh <= 12 -> bbpp <= 16 -> bw * bh * bbpp <= 3072)%nat.
 Proof. intros bw bh bbpp H1 H2 H3. assert (bw * bh <= 144)%nat by nia. nia. Qed.
+(* ---- the uncompressed code paths (model/PixelPath.v: for_each_pixel_rect_untyped with its reader positions,
+   for_each_pixel_untyped, ChannelConversionBuffer::process_pixels).  For every encoded pixel size, pixel decoder,
+   conversion, conversion-buffer size, surface, rectangle and data the rectangle path yields the crop of the full
+   decode and leaves the reader exactly at the end of the surface; the full path yields the full decode. *)
+Theorem C05_pixel_rect_is_crop : forall (A B : Type) (enc : nat) (decpx : list Z -> A) (cv : A -> B), (1 <= enc)%nat ->
+  forall (W H : nat) (data : list Z), (length data = W * H * enc)%nat ->
+  forall (conv : bool) (bufpx ox oy w h : nat), (ox + w <= W)%nat -> (oy + h <= H)%nat -> (1 <= w)%nat -> (1 <= h)%nat -> (conv = true -> 1 <= bufpx)%nat ->
+  pixel_rect_image A B enc decpx cv conv bufpx W H ox oy w h data = Some (crop_of ox oy w h (pix_image A B enc decpx cv W H data))
+  /\ snd (pixel_rect_reads enc W H ox oy w h data) = length data.
+Proof. exact pixel_rect_is_crop. Qed.
+Theorem C05_pixel_full_is_spec : forall (A B : Type) (enc : nat) (decpx : list Z -> A) (cv : A -> B), (1 <= enc)%nat ->
+  forall (W H : nat) (data : list Z), (length data = W * H * enc)%nat ->
+  forall (conv : bool) (bufpx : nat), (1 <= W)%nat -> (conv = true -> 1 <= bufpx)%nat ->
+  pixel_full_image A B enc decpx cv conv bufpx W H data = Some (pix_image A B enc decpx cv W H data).
+Proof. exact pixel_full_is_spec. Qed.
+Example C05_pixel_path_ex :
+  let data := map Z.of_nat (seq 0 (5 * 3 * 2)) in
+  pixel_rect_image Z Z 2 (fun b => (hd 0 b * 256 + nth 1 b 0)%Z) (fun v => (v + 1)%Z) true 2 5 3 1 1 3 2 data
+  = Some [[3086; 3600; 4114]; [5656; 6170; 6684]]%Z.
+Proof. vm_compute. reflexivity. Qed.
+
 (* non-vacuity: a 7 x 6 surface of 4 x 4 blocks, conversion through a 40-byte buffer, rectangle (2, 1, 5, 4) *)
 Example C05_rect_path_ex :
   let dec := fun b : list Z => map (fun i => (hd 0 b * 100 + Z.of_nat i)%Z) (seq 0 16) in
@@ -116,5 +137,5 @@ Proof. reflexivity. Qed.
 
 Definition C05_all := (C05_chmap_via_rgba, C05_chmap_id, C05_chmap_length, C05_crop_pixel, C05_crop_crop, C05_crop_map_px,
   C05_blit_outside, C05_blit_covered, C05_block_pixel_local, C05_block_rect_script_rows, C05_rect_block_rows_cover, C05_rect_block_rows_minimal,
-  C05_rect_path_is_crop, C05_full_path_is_spec, C05_general_process_blocks_ok, C05_process_4x4_blocks_ok, C05_process_2x1_blocks_ok, C05_spec_image_pixel, C05_buffer_fits).
+  C05_rect_path_is_crop, C05_full_path_is_spec, C05_general_process_blocks_ok, C05_process_4x4_blocks_ok, C05_process_2x1_blocks_ok, C05_spec_image_pixel, C05_buffer_fits, C05_pixel_rect_is_crop, C05_pixel_full_is_spec).
 Redirect "props/C05.assumptions" Print Assumptions C05_all.
